@@ -48,10 +48,8 @@ def ctx (u : Uni) (funcs : String → List V → Option (V × Str)) : Ctx where
 
 /-- `encodeXterm(key, deckpam, decckm)` by running the extracted body. -/
 def encodeXtermGen (u : Uni) (key : Key) (deckpam decckm : Bool) : Option Str :=
-  match run (ctx u VaxisModel.Model.KeyBody.noFuncs) VaxisModel.Gen.TermBody.encodeXtermBody
-      (bind "key" (.struct (VaxisModel.Model.KeyBody.keyFields key)) [("deckpam", .bool deckpam), ("decckm", .bool decckm)]) with
-  | .ok (.str s, _, _) => some s
-  | _ => none
+  (execSs (ctx u VaxisModel.Model.KeyBody.noFuncs) VaxisModel.Gen.TermBody.encodeXtermBody
+      { env := bind "key" (.struct (VaxisModel.Model.KeyBody.keyFields key)) [("deckpam", .bool deckpam), ("decckm", .bool decckm)] }).retStr
 
 def modeEnv (md : Modes) : Env :=
   [("vt.mode.deckpam", .bool md.deckpam), ("vt.mode.decckm", .bool md.decckm), ("vt.mode.paste", .bool md.paste),
@@ -65,10 +63,8 @@ def mouseFields (m : Mouse) : List (String × V) :=
 
 /-- `handleMouse(msg)`: (bytes it writes to the pty itself, returned string). -/
 def handleMouseGen (u : Uni) (md : Modes) (m : Mouse) : Option (Str × Str) :=
-  match run (ctx u VaxisModel.Model.KeyBody.noFuncs) VaxisModel.Gen.TermBody.handleMouseBody
-      (bind "msg" (.struct (mouseFields m)) (modeEnv md)) with
-  | .ok (.str s, w, _) => some (w, s)
-  | _ => none
+  (execSs (ctx u VaxisModel.Model.KeyBody.noFuncs) VaxisModel.Gen.TermBody.handleMouseBody
+      { env := bind "msg" (.struct (mouseFields m)) (modeEnv md) }).outRetStr
 
 /-- The calls `Update` makes into the two encoders; the event is the one being forwarded, the mode
     arguments are the ones the body passes. -/
@@ -92,8 +88,6 @@ def eventValue : Event → V
 
 /-- Everything `Model.Update` writes to the child for one event. -/
 def updateGen (u : Uni) (md : Modes) (ev : Event) : Option Str :=
-  match run (ctx u (updateCalls u md ev)) VaxisModel.Gen.TermBody.updateBody (("msg", eventValue ev) :: modeEnv md) with
-  | .ok (_, w, _) => some w
-  | _ => none
+  (execSs (ctx u (updateCalls u md ev)) VaxisModel.Gen.TermBody.updateBody { env := ("msg", eventValue ev) :: modeEnv md }).outOnly
 
 end VaxisModel.Model.TermBody
